@@ -36,6 +36,10 @@ PRED_TEMPLATES = {
     "plain<-missing": [("q", (None, False), []), ("p", None, ["q"])],
     "plain<-src3": [("q", (3, True), []), ("p", None, ["q"])],
     "stored2<-src3": [("q", (3, True), []), ("p", (2, False), ["q"])],
+    # ... through an *unregistered literal* that has a predecessor (a user-made barrier / a path literal a call was declared to
+    # produce): it relays staleness and modified times like an unstored call
+    "lit<-src3": [("q", (3, True), []), ("p", None, ["q"], False)],
+    "lit<-missing": [("q", (None, False), []), ("p", None, ["q"], False)],
 }
 PROBES = (0.5, 1, 2, 3)
 
@@ -46,8 +50,8 @@ def build_case(is_call, store, pred_names, store_truthy=True):
     entries: dict(name, call, store=(own, is_source)|None, truthy, preds=[names])"""
     nodes = []
     for i, tn in enumerate(pred_names):
-        for nm, st, ps in PRED_TEMPLATES[tn]:
-            nodes.append(dict(name=f"{nm}{i}", call=True, store=st, truthy=True, preds=[f"{x}{i}" for x in ps]))
+        for nm, st, ps, *rest in PRED_TEMPLATES[tn]:
+            nodes.append(dict(name=f"{nm}{i}", call=(rest[0] if rest else True), store=st, truthy=True, preds=[f"{x}{i}" for x in ps]))
     nodes.append(dict(name="n", call=is_call, store=store, truthy=store_truthy, preds=[f"p{i}" for i in range(len(pred_names))]))
     for t in PROBES:
         nodes.append(dict(name=f"probe{t}", call=True, store=(t, False), truthy=True, preds=["n"]))
@@ -97,8 +101,8 @@ def rule_stale_table(ctx, rid, rr):
     if err:
         raise AnalysisError(err)
     ctx.notes["stale_table_cases"] = n_cases
-    ctx.notes["stale_table_exhaustive_over"] = ("node kind x store/source/own-time (and a falsy store object) x fresh_time rank x 0..2 predecessors from 8 "
-                                                "shapes (plain / fresh source at 3 times / missing / through an unstored call / stale stored) x 4 probes below; "
+    ctx.notes["stale_table_exhaustive_over"] = ("node kind x store/source/own-time (and a falsy store object) x fresh_time rank x 0..2 predecessors from 10 "
+                                                "shapes (plain / fresh source at 3 times / missing / through an unstored call / through an unregistered literal / stale stored) x 4 probes below; "
                                                 "times are ranks 0.5<1<2<3, 'now' = 2.5")
     ctx.ob(rid, f"{cb.short}/decision-table", n_bad == 0, loc(cb),
            f"the set of stale stored nodes equals the specification on all {n_cases} abstract plans" if n_bad == 0 else
@@ -153,6 +157,7 @@ class StaleHarness:
         self.m, self.rr = m, rr
         self.stale_f = rr.stale
         self.CallC, self.LitC = m.one_class("Call", "T1"), m.one_class("Literal", "T1")
+        self.PlanC = m.one_class("Plan", "T1")
         self.RegC, self.RegValC = m.one_class("Registry", "T1"), roles.registry_value(m)
         self.engine_names, self.pruner_names = set(), set()
         for c in self.stale_f.own_calls():
@@ -186,17 +191,20 @@ class StaleHarness:
 
         def engine_stub(g, fn, **kw):
             # the engine processes every node after its predecessors (C01)
+            present = getattr(g, "_nodes", None)
             for o in order:
-                interp.call(fn, [o], {})
+                if present is None or any(o is x for x in present):  # (the check runs on a copy from which source literals were pruned)
+                    interp.call(fn, [o], {})
             return None
         stubs = {n: Stub(n, engine_stub) for n in self.engine_names}
-        for n in self.pruner_names:
-            stubs[n] = Stub(n, lambda p, **kw: p)
+        # (the literal pruning that precedes the check is interpreted as it is called - with its predicate and flags)
         stubs[self.norm_f.name] = Stub(self.norm_f.name, lambda v: v)
         stubs["_get_stale_scope"] = Stub("_get_stale_scope", lambda *a: ())
         now = lambda *a, **k: 2.5
         interp = Interp(m, stubs=stubs, ext={"builtins.type": lambda x: interp.class_val(x.cls) if isinstance(x, Obj) and x.cls else type(x),
-                                             "datetime.datetime.now": now, "datetime.datetime.utcnow": now, "time.time": now})
+                                             "datetime.datetime.now": now, "datetime.datetime.utcnow": now, "time.time": now,
+                                             "threading.RLock": lambda: Obj(None, {}, "lock"), "threading.Lock": lambda: Obj(None, {}, "lock"),
+                                             "networkx.MultiDiGraph": lambda *a, **k: MG(interp)})
         g = MG(interp)
         for nd in nodes:
             g.add_node(objs[nd["name"]])
@@ -204,7 +212,7 @@ class StaleHarness:
         for nd in nodes:
             for p in nd["preds"]:
                 g.add_edge(objs[p], objs[nd["name"]], dep)
-        plan = Obj(None, {"graph": g}, name="plan")
+        plan = Obj(self.PlanC, {"graph": g, "_scope": (), "_scope_lock": Obj(None, {}, "lock")}, name="plan")
         registry = Obj(self.RegC, {"mapping": mapping}, name="registry")
         params = {"plan": plan, "registry": registry, "retry": Stub("retry", lambda f: f), "max_workers": None,
                   "fresh_time": fresh, "progress_observer": self.observer}
@@ -515,8 +523,12 @@ def rule_stale_totals(ctx, rid, rr):
     a1, a2, a3, b = mk_call("a1", ("A",), f1), mk_call("a2", ("A",), f1), mk_call("a3", ("A",), f1), mk_call("b", ("B",), f2)
     lit = Obj(LitC, {"value": 7, "scope": ()}, name="lit")
     nodes = [a1, lit, a2, a3, b]
-    graph = Obj(None, {"predecessors": Stub("predecessors", lambda n: []), "nodes": Stub("nodes", lambda: list(nodes))}, name="graph")
-    plan = Obj(None, {"graph": graph}, name="plan")
+    from .rewriterules import MG
+    _ibox = []
+    graph = MG(None)
+    for n_ in nodes:
+        graph.add_node(n_)
+    plan = Obj(m.one_class("Plan", "P4"), {"graph": graph, "_scope": (), "_scope_lock": Obj(None, {}, "lock")}, name="plan")
     storecls = Obj(None, {"__qualname__": "Store", "__module__": "x", "__name__": "Store"}, name="StoreClass")
 
     def mk_store():
@@ -539,17 +551,21 @@ def rule_stale_totals(ctx, rid, rr):
     interp = None
 
     def engine_stub(g, fn, **kw):
+        present = getattr(g, "_nodes", None)
         for n in nodes:
+            if present is not None and not any(n is x for x in present):
+                continue  # not in the graph the check runs on (the literal pruning that precedes it is interpreted as it is called)
             cur.append(n)
             interp.call(fn, [n], {})
             cur.pop()
         return None
     stubs = {n: Stub(n, engine_stub) for n in engine_names}
-    for n in pruner_names:
-        stubs[n] = Stub(n, lambda p, **kw: p)
     stubs["fully_qualified_name"] = Stub("fqn", lambda x: ("fqn", getattr(x, "name", None) or repr(x)))
     interp = Interp(m, stubs=stubs, ext={"builtins.type": lambda x: interp.class_val(x.cls) if isinstance(x, Obj) and x.cls else type(x),
-                                         "collections.Counter": lambda it=(): _c.Counter(list(it))})
+                                         "collections.Counter": lambda it=(): _c.Counter(list(it)),
+                                         "threading.RLock": lambda: Obj(None, {}, "lock"), "threading.Lock": lambda: Obj(None, {}, "lock"),
+                                         "networkx.MultiDiGraph": lambda *a, **k: MG(interp)})
+    graph._i = interp
     from .evalrules import eval_totals_site, totals_site
     host_tot, call_tot = totals_site(m, rr, "stale")
     try:
